@@ -17,7 +17,7 @@ RULE = ('cases = (table sizes incl. 0,1,2,254..257,300 and random; protocol vers
         'reached `connected` with at least one table entry.')
 ASSUMPTIONS = ['simulated device implements the firmware TOC protocol (V1 and V2) as documented',
                'platform / link-control requests are never lost (the library sends them without retry)']
-REQUIRED = ['mon.stale_item_answers_right_in_front_of_the_table_info_answer', 'mon.copies_of_item_answers_arriving_in_the_extended_type_phase', 'mon.cached_sessions_with_one_checksum_for_both_tables', 'mon.tables_at_connected', 'mon.lookup_entries', 'mon.stale_sessions', 'mon.lossy_retransmissions',
+REQUIRED = ['mon.stale_item_answers_in_the_format_of_the_other_protocol_generation', 'mon.stale_item_answers_right_in_front_of_the_table_info_answer', 'mon.copies_of_item_answers_arriving_in_the_extended_type_phase', 'mon.cached_sessions_with_one_checksum_for_both_tables', 'mon.tables_at_connected', 'mon.lookup_entries', 'mon.stale_sessions', 'mon.lossy_retransmissions',
             'mon.v1_cases', 'mon.over_255', 'mon.cache_reconnects', 'mon.early_param_packets',
             'mon.stale_item_replies_mid_download', 'mon.cache_shared_with_another_firmware',
             'mon.cache_files_in_an_older_format']
@@ -221,6 +221,20 @@ def run(desc, ctx):
                         dd = (bytes([2]) + _st2.pack('<H', idx) + item(idx)) if dev.proto >= 4 else (bytes([0, idx]) + item(idx))
                         outs = [(0.0, simcf.hdr(port, 0), dd)] + outs
                         obs['stale_item_before_info'] = obs.get('stale_item_before_info', 0) + 1
+                # ... and the firmware the earlier session talked to may have been of the other protocol generation (the
+                # Crazyflie was flashed in between, or another one answers on this address now): an item answer in the
+                # other generation's format arrives right in front of the item answer the new session waits for
+                item_cmd = 2 if dev.proto >= 4 else 0
+                if port in (2, 5) and h & 3 == 0 and len(d) >= 3 and d[0] == item_cmd and srng.random() < 0.15:
+                    import struct as _st3
+                    idx = (d[1] | (d[2] << 8)) if dev.proto >= 4 else d[1]
+                    if idx < 256:
+                        if dev.proto >= 4:
+                            dd = bytes([0, idx, 0]) + b'og\0other\0'
+                        else:
+                            dd = bytes([2]) + _st3.pack('<H', idx) + bytes([0]) + b'og\0other\0'
+                        outs = [(0.0, simcf.hdr(port, 0), dd)] + outs
+                        obs['other_generation_items'] = obs.get('other_generation_items', 0) + 1
                 return outs
             spec.reply_policy = item_before_info
         if pol == 'cachenotify':
@@ -320,6 +334,7 @@ def run(desc, ctx):
             ctx.count('mon.stale_packets_delivered_mid_download')
         ctx.count('mon.stale_item_replies_mid_download', obs.get('stale_items', 0))
         ctx.count('mon.stale_item_answers_right_in_front_of_the_table_info_answer', obs.get('stale_item_before_info', 0))
+        ctx.count('mon.stale_item_answers_in_the_format_of_the_other_protocol_generation', obs.get('other_generation_items', 0))
     if obs.get('old_format_cache'):
         ctx.count('mon.cache_files_in_an_older_format')
     if obs.get('other_firmware_cached'):
